@@ -1,5 +1,7 @@
 package main
 
+import "strings"
+
 // Enumerations for the score properties (C03, C04, C05, C10, C11, C12).
 
 // all assignments of the given metrics (by index into v.metrics) on top of object b
@@ -28,51 +30,37 @@ func (v *version) mandIdx() []int {
 	return r
 }
 
-func streamScore(thorough bool, args []string) {
-	nRand, nMono, nEff := 4000, 1500, 1500
+func streamScore(thorough bool, filter []string) {
+	nRand, nMono, nEff := 4000, 1500, 4000
 	if thorough {
-		nRand, nMono, nEff = 400000, 60000, 60000
+		nRand, nMono, nEff = 120000, 20000, 40000
+	}
+	kinds, vers := "FMK", ""
+	if len(filter) > 0 && filter[0] != "" {
+		kinds = filter[0]
+	}
+	if len(filter) > 1 {
+		vers = filter[1]
+	}
+	has := func(k string) bool { return strings.Contains(kinds, k) }
+	if !has("F") {
+		nRand = 0
+	}
+	if !has("M") {
+		nMono = 0
+	}
+	if !has("K") {
+		nEff = 0
 	}
 	for _, v := range versions {
-		zero := make([]byte, v.n)
-		v.opScore(zero)
-		mand := v.mandIdx()
-		// (a) every base class (all optional metrics not defined) — exhaustive for v2 (729) and v3 (2,592);
-		//     v4 has 104,976 base classes: exhaustive in thorough, a stride sample in quick
-		cnt := 0
-		v.enumerate(zero, mand, func(b []byte) {
-			cnt++
-			if v.name == "40" && !thorough && cnt%23 != 0 {
-				return
-			}
-			v.opScore(b)
-		})
-		// (b) on a few base objects: every optional metric alone with every value, and every pair of optional
-		//     metrics of the same group (temporal × temporal, …) in thorough
-		bases := [][]byte{zero}
-		for i := 0; i < 6; i++ {
-			b := zero
-			for _, k := range mand {
-				mt := v.metrics[k]
-				nb, _ := v.set(b, mt.abv, mt.values[(i*7+k*3)%len(mt.values)])
-				b = nb
-			}
-			bases = append(bases, b)
+		if vers != "" && !strings.Contains(vers, v.name) {
+			continue
 		}
-		for _, b := range bases {
-			for k, mt := range v.metrics {
-				if mt.mand {
-					continue
-				}
-				v.enumerate(b, []int{k}, v.opScore)
-				if thorough {
-					for k2 := k + 1; k2 < len(v.metrics); k2++ {
-						if !v.metrics[k2].mand {
-							v.enumerate(b, []int{k, k2}, v.opScore)
-						}
-					}
-				}
-			}
+		zero := make([]byte, v.n)
+		mand := v.mandIdx()
+		if has("F") {
+			v.opScore(zero)
+			v.scoreEnumerations(thorough, zero, mand)
 		}
 		// (c) random well-formed objects, and raw bytes (correspondence of the panic behaviour)
 		for i := 0; i < nRand; i++ {
@@ -166,4 +154,44 @@ func (v *version) effTwin(b []byte) []byte {
 		}
 	}
 	return nb
+}
+
+func (v *version) scoreEnumerations(thorough bool, zero []byte, mand []int) {
+	// (a) every base class (all optional metrics not defined) — exhaustive for v2 (729) and v3 (2,592);
+	//     v4 has 104,976 base classes: exhaustive in thorough, a stride sample in quick
+	cnt := 0
+	v.enumerate(zero, mand, func(b []byte) {
+		cnt++
+		if v.name == "40" && !thorough && cnt%23 != 0 {
+			return
+		}
+		v.opScore(b)
+	})
+	// (b) on a few base objects: every optional metric alone with every value, and every pair of optional
+	//     metrics of the same group (temporal × temporal, …) in thorough
+	bases := [][]byte{zero}
+	for i := 0; i < 6; i++ {
+		b := zero
+		for _, k := range mand {
+			mt := v.metrics[k]
+			nb, _ := v.set(b, mt.abv, mt.values[(i*7+k*3)%len(mt.values)])
+			b = nb
+		}
+		bases = append(bases, b)
+	}
+	for _, b := range bases {
+		for k, mt := range v.metrics {
+			if mt.mand {
+				continue
+			}
+			v.enumerate(b, []int{k}, v.opScore)
+			if thorough {
+				for k2 := k + 1; k2 < len(v.metrics); k2++ {
+					if !v.metrics[k2].mand {
+						v.enumerate(b, []int{k, k2}, v.opScore)
+					}
+				}
+			}
+		}
+	}
 }
